@@ -43,7 +43,7 @@ from ..models.tagrel import Rel
 PROP = 'C20'
 LEVEL = 'exploration'
 RULE = ('Seeded chain histories of <= 10 operations (read of generated tag lines / insert of a fresh package / '
-        '14 derivation kinds, each replacing the current DB); package names of length 1 and 2..12, tags with and '
+        '12 derivation kinds, each replacing the current DB); package names of length 1 and 2..12, tags with and '
         'without a "::" facet.  A history is non-trivial when it executed >= 3 operations of >= 2 different kinds, '
         'at least one of them a derivation, and at some checked step the relation was many-to-many (a tag with '
         '>= 2 packages and a package with >= 2 tags).')
@@ -876,7 +876,7 @@ def conclusive(tier, counters, monitor_evals, extra):
     return None
 
 
-LEVEL_TEXT = ('Runtime monitoring: seeded chain histories (read / insert / 14 derivation kinds, <= 10 operations) are executed '
+LEVEL_TEXT = ('Runtime monitoring: seeded chain histories (read / insert / 12 derivation kinds, <= 10 operations) are executed '
               'on the live debtags.DB; after every step all query methods are compared with an independent reference relation '
               '(set of pairs) transformed by the same operation, and a contract at the hook (K8: db and rdb describe the same '
               'pairs) is evaluated after every insert/read and on every returned DB, including the intermediate collection '
